@@ -59,7 +59,7 @@ def _plan(draw, lo, hi, depth, ctr):
 
 @st.composite
 def _case(draw):
-    mode = draw(st.sampled_from(['split', 'split', 'split', 'missing', 'path', 'keyinc', 'keyinc2']))
+    mode = draw(st.sampled_from(['split', 'split', 'split', 'missing', 'path', 'keyinc', 'keyinc2', 'keyinc2']))
     docs = draw(S.tagged_stages(min_stages=2, max_stages=5, new=False, density=5, max_leaves=6, keys=S.MERGE_KEYS_NONEG, neg=False))
     ctr = [0]
     case = {'mode': mode, 'docs': docs, 'abs_master': draw(st.booleans())}
@@ -79,7 +79,7 @@ def _case(draw):
         lists = ['lst', 'other']
         case['pre'] = {nm: [draw(st.integers(0, 9)) for _ in range(draw(st.integers(0, 3)))] for nm in lists if draw(st.booleans())}
         files = []
-        for _ in range(draw(st.sampled_from([1, 1, 2]))):
+        for _ in range(draw(st.sampled_from([1, 2, 2]))):
             entries = []
             for nm in lists:
                 kind = draw(st.sampled_from(['none', 'plain', 'extend', 'extend', 'append']))
@@ -88,7 +88,7 @@ def _case(draw):
             entries.append(['s', 'scalar', draw(st.integers(0, 9))])
             # priority tags written inside the included files: they decide between the documents of the include and stay with the
             # content that is placed under the key (unless the place itself carries a priority)
-            entries.append(['t', 'scalar', draw(st.integers(0, 9)), draw(st.sampled_from([None, None, 1, -1]))])
+            entries.append(['t', 'scalar', draw(st.integers(0, 9)), draw(st.sampled_from([None, 1, -1]))])
             files.append(entries)
         case['files'] = files
         # the including mapping may carry a priority tag (the content placed under the key takes it, like anything written there),
